@@ -34,13 +34,17 @@ type rel struct {
 	killAll bool
 	gen     map[string]bool
 	kill    map[string]bool
+	may     map[string]bool // calls of interest that MAY have been executed earlier in this function body (union at joins)
 }
 
-func newRel() *rel { return &rel{gen: map[string]bool{}, kill: map[string]bool{}} }
+func newRel() *rel { return &rel{gen: map[string]bool{}, kill: map[string]bool{}, may: map[string]bool{}} }
 func bottom() *rel { r := newRel(); r.bottom = true; return r }
 
 func (r *rel) clone() *rel {
-	c := &rel{bottom: r.bottom, killAll: r.killAll, gen: map[string]bool{}, kill: map[string]bool{}}
+	c := &rel{bottom: r.bottom, killAll: r.killAll, gen: map[string]bool{}, kill: map[string]bool{}, may: map[string]bool{}}
+	for k := range r.may {
+		c.may[k] = true
+	}
 	for k := range r.gen {
 		c.gen[k] = true
 	}
@@ -52,7 +56,15 @@ func (r *rel) clone() *rel {
 
 func (r *rel) lock(k string)   { r.gen[k] = true; delete(r.kill, k) }
 func (r *rel) unlock(k string) { delete(r.gen, k); r.kill[k] = true }
-func (r *rel) unlockUnknown()  { r.gen = map[string]bool{}; r.killAll = true }
+func (r *rel) unlockUnknown() {
+	g := map[string]bool{}
+	for k := range r.gen {
+		if strings.HasPrefix(k, "!") { // must-have-written / must-have-called markers are not locks
+			g[k] = true
+		}
+	}
+	r.gen, r.killAll = g, true
+}
 
 func meet(a, b *rel) *rel {
 	if a.bottom {
@@ -74,6 +86,12 @@ func meet(a, b *rel) *rel {
 	for k := range b.kill {
 		c.kill[k] = true
 	}
+	for k := range a.may {
+		c.may[k] = true
+	}
+	for k := range b.may {
+		c.may[k] = true
+	}
 	// a lock generated on one side only is not must-held unless inherited and unkilled
 	// on the other; "kill" must not hide it on the side where it is generated: it is
 	// dropped from gen, and stays governed by E - kill, which is exact when it was
@@ -82,8 +100,13 @@ func meet(a, b *rel) *rel {
 }
 
 func (r *rel) equal(o *rel) bool {
-	if r.bottom != o.bottom || r.killAll != o.killAll || len(r.gen) != len(o.gen) || len(r.kill) != len(o.kill) {
+	if r.bottom != o.bottom || r.killAll != o.killAll || len(r.gen) != len(o.gen) || len(r.kill) != len(o.kill) || len(r.may) != len(o.may) {
 		return false
+	}
+	for k := range r.may {
+		if !o.may[k] {
+			return false
+		}
 	}
 	for k := range r.gen {
 		if !o.gen[k] {
@@ -345,12 +368,28 @@ func (a *analysis) record(typ, field, kind string, pos token.Pos, fresh bool) {
 }
 
 const wrotePrefix = "!w:"
+const calledPrefix = "!c:"
 
 func (a *analysis) recordCall(callee, how string, pos token.Pos) {
 	if a.st.bottom {
 		return
 	}
 	a.calls[fmt.Sprintf("%d/%s/%s", pos, callee, how)] = &rawCall{a.cur, callee, how, a.st.clone(), pos}
+	if how == "HCall" {
+		// statement order between calls: must-have-called (like a lock never released,
+		// inherited by callees) and may-have-called (this function body only)
+		a.st.gen[calledPrefix+callee] = true
+		a.st.may[callee] = true
+	}
+}
+
+// lockOfInterest: Lock/Unlock calls on the mutexes of listed types are call facts too (the
+// lockset AT the Lock call gives the lock order).
+func (a *analysis) lockOfInterest(name string) bool {
+	if a.callInt == nil {
+		return true
+	}
+	return !strings.HasPrefix(name, "$")
 }
 
 func (a *analysis) callOfInterest(n *node) bool {
@@ -791,7 +830,9 @@ func (a *analysis) selector(x *ast.SelectorExpr, c ctx) {
 	}
 }
 
-func (a *analysis) chanOp(e ast.Expr, kind string, pos token.Pos) {
+func (a *analysis) chanOp(e ast.Expr, kind string, pos token.Pos) { a.chanOpHow(e, kind, pos, "call") }
+
+func (a *analysis) chanOpHow(e ast.Expr, kind string, pos token.Pos, how string) {
 	for {
 		if p, ok := e.(*ast.ParenExpr); ok {
 			e = p.X
@@ -815,7 +856,7 @@ func (a *analysis) chanOp(e ast.Expr, kind string, pos token.Pos) {
 	if _, isChan := fv.Type().Underlying().(*types.Chan); !isChan {
 		return
 	}
-	a.recordCall(map[string]string{"CSend": "send", "CRecv": "recv", "CClose": "close"}[kind]+"("+tname+"."+fv.Name()+")", "HCall", pos)
+	a.recordCall(map[string]string{"CSend": "send", "CRecv": "recv", "CClose": "close"}[kind]+"("+tname+"."+fv.Name()+")", howOf(how), pos)
 	f := chanFact{tname, fv.Name(), kind, a.cur.name, a.posStr(pos)}
 	a.chans[f.typ+"|"+f.field+"|"+f.kind+"|"+f.fn] = f
 }
@@ -1082,7 +1123,7 @@ func (a *analysis) call(c *ast.CallExpr, how string) {
 		switch cl.name {
 		case "close":
 			if len(c.Args) == 1 {
-				a.chanOp(c.Args[0], "CClose", c.Pos())
+				a.chanOpHow(c.Args[0], "CClose", c.Pos(), how)
 			}
 			a.args(c, nil, cRead)
 		case "delete", "clear":
@@ -1103,6 +1144,20 @@ func (a *analysis) call(c *ast.CallExpr, how string) {
 				a.st = bottom()
 			}
 		case "new", "make":
+			if cl.name == "make" && len(c.Args) >= 1 {
+				if t := a.info().TypeOf(c.Args[0]); t != nil {
+					if _, isChan := t.Underlying().(*types.Chan); isChan {
+						capText := "0"
+						if len(c.Args) >= 2 {
+							capText = "?"
+							if tv, ok := a.info().Types[c.Args[1]]; ok && tv.Value != nil {
+								capText = tv.Value.ExactString()
+							}
+						}
+						a.recordCall("makechan("+types.TypeString(t, func(p *types.Package) string { return "" })+","+capText+")", "HCall", c.Pos())
+					}
+				}
+			}
 			for _, x := range c.Args[1:] {
 				a.expr(x, cRead)
 			}
@@ -1139,6 +1194,7 @@ func (a *analysis) call(c *ast.CallExpr, how string) {
 		}
 		op := cl.lockOp
 		if name == "" {
+			a.recordCall(strings.ToLower(op)+"(?"+a.nodeText(cl.sel.X)+")", howOf(how), c.Pos())
 			a.unknown("lock-via-alias:"+op, cl.sel.X)
 			if (op == "Unlock" || op == "RUnlock") && how == "call" {
 				a.st.unlockUnknown()
@@ -1150,6 +1206,9 @@ func (a *analysis) call(c *ast.CallExpr, how string) {
 		}
 		a.universe[name+"/W"] = true
 		a.universe[name+"/R"] = true
+		if a.lockOfInterest(name) {
+			a.recordCall(strings.ToLower(op)+"("+name+")", howOf(how), c.Pos())
+		}
 		switch op {
 		case "Lock":
 			if how == "call" {
@@ -1203,6 +1262,7 @@ func (a *analysis) call(c *ast.CallExpr, how string) {
 		n.sites = append(n.sites, site{a.cur, siteState()})
 		if how == "go" {
 			n.goBody = true
+			a.recordCall("go:"+n.name, "HGo", c.Pos())
 			g := goFact{a.cur.name, n.name, a.posStr(c.Pos())}
 			a.gos[g.spawner+"|"+g.body] = g
 		}
@@ -1227,6 +1287,9 @@ func (a *analysis) call(c *ast.CallExpr, how string) {
 		return
 	case "funcvalue":
 		if cl.sel != nil {
+			if fn := a.fieldName(cl.sel); fn != "" {
+				a.recordCall(fn+"()", howOf(how), c.Pos()) // x.f(...) with f a func-typed field
+			}
 			a.expr(cl.sel, cRead)
 		} else {
 			a.expr(c.Fun, cRead)
@@ -1241,6 +1304,11 @@ func (a *analysis) call(c *ast.CallExpr, how string) {
 
 	// node / iface / foreign: receiver, arguments, call edges
 	if cl.sel != nil && a.info().Selections[cl.sel] != nil {
+		if cl.kind == "iface" && cl.fn != nil {
+			if fn := a.fieldName(cl.sel.X); fn != "" {
+				a.recordCall(fn+"."+cl.fn.Name(), howOf(how), c.Pos()) // x.f.M() with f an interface-typed field
+			}
+		}
 		a.receiver(cl)
 	}
 	var target []*node
@@ -1823,6 +1891,31 @@ func (a *analysis) loop(label string, head, body, post func(), noCond bool) {
 }
 
 func (a *analysis) clauses(label string, list []ast.Stmt, isSelect bool) {
+	if isSelect {
+		// Go evaluates the channel operands (and send values) of every case on entry, before
+		// choosing one: calls such as r.stctx.Done() happen whichever case is taken
+		for _, cs := range list {
+			cc, ok := cs.(*ast.CommClause)
+			if !ok || cc.Comm == nil {
+				continue
+			}
+			var arrow ast.Expr
+			switch x := cc.Comm.(type) {
+			case *ast.SendStmt:
+				a.callsIn(x.Chan)
+				a.callsIn(x.Value)
+			case *ast.ExprStmt:
+				arrow = x.X
+			case *ast.AssignStmt:
+				if len(x.Rhs) == 1 {
+					arrow = x.Rhs[0]
+				}
+			}
+			if u, ok := arrow.(*ast.UnaryExpr); ok && u.Op == token.ARROW {
+				a.callsIn(u.X)
+			}
+		}
+	}
 	in := a.st.clone()
 	f := &frame{label: label}
 	a.frames = append(a.frames, f)
@@ -1862,6 +1955,26 @@ func (a *analysis) clauses(label string, list []ast.Stmt, isSelect bool) {
 		out = bottom() // select {} blocks forever
 	}
 	a.st = out
+}
+
+// callsIn walks an expression only if it contains a call (operand of a select case).
+func (a *analysis) callsIn(e ast.Expr) {
+	if e == nil {
+		return
+	}
+	has := false
+	ast.Inspect(e, func(n ast.Node) bool {
+		if _, ok := n.(*ast.CallExpr); ok {
+			has = true
+		}
+		if _, ok := n.(*ast.FuncLit); ok {
+			return false
+		}
+		return !has
+	})
+	if has {
+		a.expr(e, cRead)
+	}
 }
 
 // ----------------------------------------------------------------------------- fresh locals
@@ -2402,6 +2515,9 @@ type outFact struct {
 // splitState separates the lock names from the must-have-written markers.
 func splitState(ls lockset) (locks, written []string) {
 	for k := range ls {
+		if strings.HasPrefix(k, calledPrefix) {
+			continue
+		}
 		if strings.HasPrefix(k, wrotePrefix) {
 			written = append(written, k[len(wrotePrefix):])
 		} else {
@@ -2416,6 +2532,7 @@ func splitState(ls lockset) (locks, written []string) {
 type outCall struct {
 	Caller, Callee, How string
 	Locks, Written      []string
+	After, Maybe        []string // calls that must / may have been executed before this one
 	InGo                bool
 	Pos                 string
 }
@@ -2458,9 +2575,21 @@ func (a *analysis) outCalls() []outCall {
 	})
 	var out []outCall
 	for _, c := range raw {
-		locks, written := splitState(c.st.apply(c.caller.entry, u))
+		full := c.st.apply(c.caller.entry, u)
+		locks, written := splitState(full)
+		var after, maybe []string
+		for k := range full {
+			if strings.HasPrefix(k, calledPrefix) {
+				after = append(after, k[len(calledPrefix):])
+			}
+		}
+		for k := range c.st.may {
+			maybe = append(maybe, k)
+		}
+		sort.Strings(after)
+		sort.Strings(maybe)
 		inGo := a.inGo(c.caller, map[*node]bool{})
-		out = append(out, outCall{c.caller.name, c.callee, c.how, locks, written, inGo, a.posStr(c.pos)})
+		out = append(out, outCall{c.caller.name, c.callee, c.how, locks, written, after, maybe, inGo, a.posStr(c.pos)})
 	}
 	sort.SliceStable(out, func(i, j int) bool {
 		if out[i].Callee != out[j].Callee {
@@ -2653,7 +2782,14 @@ func (a *analysis) emit(typesSeen []string, fields [][2]string, exported [][2]st
 		for _, x := range c.Written {
 			wr = append(wr, q(x))
 		}
-		it = append(it, fmt.Sprintf("mkCall %s %s %s %s [%s] %s %s", q(c.Caller), q(c.Callee), c.How, coqLocks(c.Locks), strings.Join(wr, "; "), coqBool(c.InGo), q(c.Pos)))
+		ql := func(xs []string) string {
+			var o []string
+			for _, x := range xs {
+				o = append(o, q(x))
+			}
+			return "[" + strings.Join(o, "; ") + "]"
+		}
+		it = append(it, fmt.Sprintf("mkCall %s %s %s %s [%s] %s %s %s %s", q(c.Caller), q(c.Callee), c.How, coqLocks(c.Locks), strings.Join(wr, "; "), ql(c.After), ql(c.Maybe), coqBool(c.InGo), q(c.Pos)))
 	}
 	chunked(&w, "calls", "call_fact", it)
 	it = nil
@@ -2701,8 +2837,26 @@ var callsOfInterest = map[string]bool{
 	// consumer group (Model/ConsumerGroup.v)
 	"Generation.Start": true, "Generation.close": true, "ConsumerGroup.nextGeneration": true,
 	"ConsumerGroup.run": true, "ConsumerGroup.leaveGroup": true,
-	// Reader
+	// Reader (Model/Lifecycle.v, Model/GroupReader.v, Model/ReaderModel.v)
 	"Reader.start": true, "Reader.unsubscribe": true, "Reader.subscribe": true, "Reader.run": true,
+	"Reader.commitLoop": true, "Reader.commitLoopImmediate": true, "Reader.commitLoopInterval": true,
+	"Reader.commitOffsetsWithRetry": true, "Reader.activateReadLag": true, "Reader.readLag": true,
+	"Reader.getTopicPartitionOffset": true,
+	"reader.run": true, "reader.initialize": true, "reader.read": true, "reader.sendMessage": true, "reader.sendError": true,
+	// Conn (Model/ConnMux.v, Model/ConnOps.v)
+	"Conn.enter": true, "Conn.leave": true, "Conn.concurrency": true, "Conn.do": true, "Conn.doRequest": true,
+	"Conn.waitResponse": true, "Conn.readOperation": true, "Conn.writeOperation": true,
+	"Conn.peekResponseSizeAndID": true, "Conn.skipResponseSizeAndID": true, "Batch.close": true,
+	"connDeadline.setConnReadDeadline": true, "connDeadline.unsetConnReadDeadline": true,
+	"connDeadline.setConnWriteDeadline": true, "connDeadline.unsetConnWriteDeadline": true,
+	// Transport (Model/TransportPool.v)
+	"connGroup.grabConnOrConnect": true, "connGroup.grabConn": true, "connGroup.grabConnTo": true,
+	"connGroup.removeConn": true, "connGroup.releaseConn": true, "connGroup.closeIdleConns": true,
+	"connGroup.connect": true, "conn.close": true, "conn.run": true, "conn.roundTrip": true,
+	"connPool.sendRequest": true, "connPool.roundTrip": true, "connPool.grabBrokerConn": true,
+	"connPool.grabClusterConn": true, "connPool.update": true, "connPool.setState": true,
+	"connPool.grabState": true, "connPool.discover": true, "connPool.unref": true, "connPool.setReady": true,
+	"async.await": true, "async.resolve": true, "async.reject": true, "reject": true,
 }
 
 // interest table: package (path suffix after the module path) -> type names
